@@ -106,7 +106,7 @@ fn dispatch(name: &str, a: &[i64]) -> Option<Vec<i64>> {
     }
     #[cfg(feature = "p_knuthplass")]
     {
-        // kp_pass_<KINDS> amounts.. line_width tolerance line_penalty adj_demerits rs_w rs_st rs_sh rs_order
+        // kp_pass_<KINDS> amounts.. line_width tolerance line_penalty adj_demerits rs_w rs_st rs_sh rs_order [looseness]
         // KINDS over R (rule: w), G/F (glue finite/fil: w st sh), K/k (explicit/font kern: w), P (penalty: p)
         if let Some(kinds) = name.strip_prefix("kp_pass_") {
             use boxworks::ds;
@@ -173,7 +173,7 @@ fn dispatch(name: &str, a: &[i64]) -> Option<Vec<i64>> {
                 inter_line_penalty: 0,
                 left_skip: common::Glue::ZERO,
                 line_penalty,
-                looseness: 0,
+                looseness: a.get(k + 8).copied().unwrap_or(0) as i32,
                 par_fill_skip: common::Glue::ZERO,
                 pre_tolerance: 0,
                 right_skip: rs,
